@@ -22,7 +22,10 @@ R = Registry(
         "copy (depth 2) -- and uses `+=` only on attributes that hold immutable values under every binding, "
         "including the container kind that the copy-internals traversal (_CopyInternalsTraversal.visit_<dp> via "
         "_traverse_internals) rebinds on clones; only memoisations registered in _memoized_keys count as dropped "
-        "by a shallow copy (util.memoized_property values survive and are shared); _generate()/_clone() never "
+        "by a shallow copy (util.memoized_property values survive and are shared, and must not be computed from "
+        "attributes a generative method of the class rebinds unless that method drops them); the same discipline "
+        "holds in functions the copy is handed to as an argument (module functions, classmethods); "
+        "_generate()/_clone() never "
         "share __dict__ with the original, skip _memoized_keys, and the decorator operates on the copy; "
         "compiler and CompileState methods store into / mutate an "
         "element only after rebinding it to a clone or a newly constructed element on every path; the "
@@ -31,7 +34,8 @@ R = Registry(
     not_decided=(
         "pickling/deepcopy equality of statements, thread-level atomicity of memoisation, deep freshness of nested "
         "containers (an element of a copied container is treated as shared), HasShallowCopy/_shallow_copy_to "
-        "copies (ORM Load options), mutation through helpers reached other than as self.helper(), legacy Query paths "
+        "copies (ORM Load options), mutation through helpers reached other than as self.helper() / helper(self) "
+        "(e.g. `self.method.non_generative(self, ...)`, callables held in variables), legacy Query paths "
         "outside the decorator family, determinism of user-supplied type/compile hooks."
     ),
 )
@@ -1091,6 +1095,253 @@ def r4(ctx):
                   "no hash/id/random/time, no set iteration", f.loc)
 
 
+# ---------------------------------------------------------------------- C03-R5: memoisations that survive the copy
+def _is_generative(fn: FuncInfo) -> bool:
+    return any(d.split(".")[-1] == "_generative" for d in fn.decorators)
+
+
+def _survives_copy(fn: FuncInfo) -> bool:
+    return any("memoized" in d and "non_memoized" not in d and not _drops_on_copy(d) for d in fn.decorators)
+
+
+_FALSY_CONSTANTS = (None, False, 0, "", b"")
+
+
+def _constant_falsy(e) -> bool:
+    if isinstance(e, ast.Constant):
+        return any(e.value is c or (type(e.value) is type(c) and e.value == c) for c in _FALSY_CONSTANTS)
+    return isinstance(e, (ast.Tuple, ast.List, ast.Dict, ast.Set)) and not (e.keys if isinstance(e, ast.Dict) else e.elts)
+
+
+def _memo_reads(ctx, fn: FuncInfo, cls: ClassInfo, depth=0, seen=None) -> Set[str]:
+    """Attributes of the receiver that the value of the memoised function `fn` is computed from: every
+    `<receiver>.<name>` it loads, followed (depth 3) through the properties / methods that <name> resolves to on
+    the concrete class `cls` (the receiver is the function's first parameter, whatever it is called)."""
+    seen = seen if seen is not None else set()
+    out: Set[str] = set()
+    if not fn.params or fn.key in seen:
+        return out
+    seen.add(fn.key)
+    recv = fn.params[0]
+    for n in walk_local(fn.node, into_nested=True):
+        if isinstance(n, ast.Attribute) and isinstance(n.value, ast.Name) and n.value.id == recv and isinstance(n.ctx, ast.Load):
+            out.add(n.attr)
+            t = ctx.index.resolve_method(cls, n.attr)
+            if t is not None and depth < 3 and not _is_generative(t):
+                out |= _memo_reads(ctx, t, cls, depth + 1, seen)
+    return out
+
+
+def _copy_writes(ctx, fn: FuncInfo, cls: ClassInfo, recv=None, depth=0, seen=None):
+    """What a (generative) function does to the attributes of the copy it runs on, followed (depth 2) into the
+    helper methods it invokes on the copy and the functions it hands the copy to.
+    -> (writes: attr -> [value expr | None], dropped: names removed from / stored over in the copy's __dict__)."""
+    seen = seen if seen is not None else set()
+    writes: Dict[str, List] = {}
+    dropped: Set[str] = set()
+    recv = recv if recv is not None else (fn.params[0] if fn.params else None)
+    if recv is None or fn.key in seen:
+        return writes, dropped
+    seen.add(fn.key)
+
+    def const_strings(e):
+        """string constants an expression can be: a literal, or a loop variable over a literal tuple/list"""
+        if isinstance(e, ast.Constant) and isinstance(e.value, str):
+            return {e.value}
+        if isinstance(e, ast.Name):
+            out = set()
+            for x in walk_local(fn.node):
+                if isinstance(x, (ast.For, ast.comprehension)) and isinstance(x.target, ast.Name) and x.target.id == e.id \
+                        and isinstance(x.iter, (ast.Tuple, ast.List)):
+                    out |= {c.value for c in x.iter.elts if isinstance(c, ast.Constant) and isinstance(c.value, str)}
+            return out
+        return set()
+
+    def is_recv_dict(e):
+        return isinstance(e, ast.Attribute) and e.attr == "__dict__" and isinstance(e.value, ast.Name) and e.value.id == recv
+
+    for n in walk_local(fn.node):
+        if isinstance(n, (ast.Assign, ast.AnnAssign, ast.AugAssign, ast.Delete)):
+            tgts = n.targets if isinstance(n, (ast.Assign, ast.Delete)) else [n.target]
+            val = getattr(n, "value", None) if isinstance(n, (ast.Assign, ast.AnnAssign)) else None
+            if isinstance(n, ast.AnnAssign) and n.value is None:
+                continue
+            for t in tgts:
+                leaves = t.elts if isinstance(t, (ast.Tuple, ast.List)) else [t]
+                for leaf in leaves:
+                    if isinstance(leaf, ast.Attribute) and isinstance(leaf.value, ast.Name) and leaf.value.id == recv:
+                        if isinstance(n, ast.Delete):
+                            dropped.add(leaf.attr)
+                        else:
+                            writes.setdefault(leaf.attr, []).append(val if leaf is t else None)
+                            if not isinstance(n, ast.AugAssign):
+                                dropped.add(leaf.attr)  # a plain store replaces whatever was memoised under the name
+                    elif isinstance(leaf, ast.Subscript) and is_recv_dict(leaf.value):
+                        dropped |= const_strings(leaf.slice)
+        if not isinstance(n, ast.Call):
+            continue
+        if isinstance(n.func, ast.Attribute) and n.func.attr in ("pop", "__delitem__") and is_recv_dict(n.func.value) and n.args:
+            dropped |= const_strings(n.args[0])
+            continue
+        tgt = r2 = None
+        if isinstance(n.func, ast.Attribute) and isinstance(n.func.value, ast.Name) and n.func.value.id == recv:
+            tgt = ctx.index.resolve_method(cls, n.func.attr)
+            if tgt is not None and any(d.split(".")[-1] in ("classmethod", "staticmethod") for d in tgt.decorators):
+                tgt = None
+            r2 = tgt.params[0] if tgt is not None and tgt.params else None
+        elif any(isinstance(a_, ast.Name) and a_.id == recv for a_ in list(n.args) + [k.value for k in n.keywords]):
+            nm = call_name(n) or ""
+            if nm and "()" not in nm and nm.split(".")[0] not in ("self", "cls", recv):
+                try:
+                    tgt = ctx.index.resolve(fn.module, nm)
+                except Exception:
+                    tgt = None
+                if isinstance(tgt, FuncInfo):
+                    r2 = _receiver_param(tgt, n, recv)
+                else:
+                    tgt = None
+        if tgt is None or r2 is None or depth >= 2 or _is_generative(tgt) or tgt.type_only:
+            continue
+        w2, d2 = _copy_writes(ctx, tgt, cls, r2, depth + 1, seen)
+        for k, v in w2.items():
+            writes.setdefault(k, []).extend(v)
+        dropped |= d2
+    return writes, dropped
+
+
+def _memo_readers_guarded(ctx, memo_name: str, attr: str, exclude: FuncInfo) -> Optional[str]:
+    """Every load `<x>.<memo_name>` in sql/ and orm/ is executed only under a branch outcome that says `<x>.<attr>`
+    is truthy (CFG-dominating outcome, early returns included, or the short-circuit / conditional expression it sits
+    in).  Returns None if so, else a description of the first unguarded reader."""
+    from ._helpers_rob_c2 import conj_atoms
+    from ._helpers_rob_c3 import pure_alias_bindings, substitute
+    from ..astutil import lexical_guards
+    n_readers = 0
+    for f in ctx.index.all_functions():
+        if not f.module.relpath.startswith(("sql/", "orm/", "ext/", "engine/")) or f.node is exclude.node:
+            continue
+        loads = [n for n in walk_local(f.node, into_nested=True)
+                 if isinstance(n, ast.Attribute) and n.attr == memo_name and isinstance(n.ctx, ast.Load)]
+        if not loads:
+            continue
+        g = ctx.cfg(f)
+        pm = f.module.parents()
+        node_of = {}
+        from ..astutil import own_exprs
+        for nd in g.nodes:
+            if nd.stmt is not None and isinstance(nd.stmt, ast.stmt) and nd.kind not in ("with_exit", "join"):
+                for part in own_exprs(nd.stmt):
+                    for x in ast.walk(part):
+                        node_of.setdefault(id(x), nd.id)
+        aliases = pure_alias_bindings(f.node)
+        for ld in loads:
+            n_readers += 1
+            base = unparse(substitute(ld.value, aliases))
+            guards = list(lexical_guards(pm, ld, stop=f.node))
+            if id(ld) in node_of:
+                guards += g.edge_guards(node_of[id(ld)])
+            ok = False
+            for test, pol in guards:
+                for a_, p_ in conj_atoms(substitute(test, aliases), pol):
+                    if p_ is True and isinstance(a_, ast.Attribute) and a_.attr == attr and unparse(a_.value) == base:
+                        ok = True
+            if not ok:
+                return f"{f.key} line {ld.lineno} reads `{unparse(ld)}` without testing `{base}.{attr}`"
+    return None if n_readers else "no reader found"
+
+
+@R.rule("C03-R5", floor=15, template="T-FLOW",
+        desc="a memoisation that survives _generate() (util.memoized_property & co., not registered in _memoized_keys) "
+             "on a Generative class is not computed from an attribute that one of the class's generative methods "
+             "rebinds without dropping the memoised value")
+def r5(ctx):
+    gcls = ctx.index.cls("sql/base.py::Generative")
+    fam = [c for c in ctx.index.all_classes() if gcls in ctx.index.mro(c)]
+    ctx.require(len(fam) >= 40, f"only {len(fam)} Generative classes found")
+    # premise: the plain memoising descriptor stores into the instance __dict__ and registers nothing
+    mp = ctx.index.cls("util/langhelpers.py::_memoized_property")
+    get = mp.methods.get("__get__")
+    if get is None:
+        for n in ast.walk(mp.node):
+            if isinstance(n, ast.FunctionDef) and n.name == "__get__":
+                get = n
+    ctx.require(get is not None, "util.langhelpers._memoized_property.__get__ not found")
+    gnode = get.node if isinstance(get, FuncInfo) else get
+    stores_dict = any(isinstance(n, ast.Subscript) and isinstance(n.ctx, ast.Store) and isinstance(n.value, ast.Attribute)
+                      and n.value.attr == "__dict__" for n in ast.walk(gnode))
+    registers = any(isinstance(n, ast.Attribute) and n.attr == "_memoized_keys" for n in ast.walk(gnode))
+    ctx.require(stores_dict and not registers,
+                "util.memoized_property no longer stores its value in the instance __dict__ without registering it in "
+                "_memoized_keys: the premise of C03-R5 (and of _drops_on_copy) has changed")
+    ctx.ok("util/langhelpers.py::_memoized_property.__get__:survives-copy",
+           "value kept in obj.__dict__, not registered in _memoized_keys", nontrivial=False)
+    pairs: Dict[tuple, tuple] = {}
+    memos: Dict[str, tuple] = {}
+    wcache: Dict[tuple, tuple] = {}
+    n_gen = 0
+    for c in sorted(fam, key=lambda x: x.key):
+        names: Set[str] = set()
+        for k in ctx.index.mro(c):
+            names |= set(k.methods)
+        ms, gs = [], []
+        for nm in sorted(names):
+            t = ctx.index.resolve_method(c, nm)
+            if t is None or t.type_only:
+                continue
+            if _survives_copy(t):
+                ms.append(t)
+            elif _is_generative(t):
+                gs.append(t)
+        n_gen += len(gs)
+        for m_ in ms:
+            rd = _memo_reads(ctx, m_, c)
+            rec = memos.setdefault(m_.key, (m_, set(), set()))
+            rec[1].update(rd)
+            rec[2].add(c.key)
+            for g_ in gs:
+                if (g_.key, c.key) not in wcache:
+                    wcache[(g_.key, c.key)] = _copy_writes(ctx, g_, c)
+                writes, dropped = wcache[(g_.key, c.key)]
+                if m_.name in dropped:
+                    continue
+                inter = sorted(set(writes) & rd)
+                if inter:
+                    pairs.setdefault((g_.key, m_.key), (g_, m_, inter, writes, []))[4].append(c)
+    ctx.require(len(memos) >= 15, f"only {len(memos)} surviving memoisations found on Generative classes")
+    ctx.require(n_gen >= 200, f"only {n_gen} (class, generative method) combinations examined")
+    bad_memos = set()
+    for (gk, mk), (g_, m_, inter, writes, classes) in sorted(pairs.items()):
+        key = f"{gk}:stale-memo:{m_.name}"
+        # unobservable staleness: the method only ever empties the attribute and every reader of the memoised value
+        # first tests that the attribute is non-empty
+        why_dead = []
+        for a_ in inter:
+            vals = writes[a_]
+            if all(v is not None and _constant_falsy(v) for v in vals):
+                un = _memo_readers_guarded(ctx, m_.name, a_, m_)
+                if un is None:
+                    why_dead.append(f"{a_} is only reset to an empty value and every reader of .{m_.name} first tests .{a_}")
+                    continue
+            why_dead = None
+            break
+        if why_dead:
+            ctx.ok(key, "stale value is never read: " + "; ".join(why_dead))
+            continue
+        bad_memos.add(mk)
+        ctx.violation(key,
+                      f"{g_.qualname}() rebinds {', '.join('self.' + a for a in inter)} on the copy, but `{m_.qualname}` is memoised by "
+                      f"`{[d for d in m_.decorators if 'memoized' in d][0]}` (value kept in __dict__, not registered in "
+                      f"_memoized_keys, so _generate() carries it over) and is computed from "
+                      f"{'that attribute' if len(inter) == 1 else 'those attributes'}: once the memoised value exists on the "
+                      f"original, the statement returned by {g_.name}() keeps reporting the original's value (classes: "
+                      f"{', '.join(sorted(c.name for c in classes))[:120]}); {g_.name}() does not drop the name from __dict__",
+                      g_.loc, [g_.key, m_.key])
+    for mk, (m_, rd, classes) in sorted(memos.items()):
+        if mk not in bad_memos:
+            ctx.ok(mk + ":survives-copy", f"on {len(classes)} Generative class(es): no generative method rebinds what it is computed "
+                                          f"from ({len(rd)} attribute(s) read) without dropping it")
+
+
 # ---------------------------------------------------------------------- self-test battery
 Q = "orm/query.py"
 R.mutant("add-columns-no-copy", Q, sub("        self._raw_columns = list(self._raw_columns)\n\n        self._raw_columns.extend(", "        self._raw_columns.extend("), "C03-R1")
@@ -1256,3 +1507,124 @@ R.mutant("decorator-closure-style-runs-on-original", B, sub(
     _DECW_OLD,
     '    def _generative_wrapper(self: Any, *args: Any, **kw: Any) -> Any:\n        new = self._generate()\n        fn(self, *args, **kw)\n        return new\n\n'
     '    decorated = util.decorator(lambda fn_, *a, **k: _generative_wrapper(*a, **k))(fn)\n'), "C03-R2")
+
+# ---- round-2 seeds (str2-c).  Before the change both were silent: (1) the alias detector only knew names bound once
+# by a bare `self.attr[...]` expression, (2) `+=` / in-place sinks were only looked for in the generative method and
+# in `self.helper()` methods, not in functions the copy is handed to.
+_FETCH_OLD = ("            self._fetch_clause_options = {\n                \"with_ties\": with_ties,\n"
+              "                \"percent\": percent,\n            }\n        return self\n")
+R.mutant("seed3-fetch-options-updated-through-or-alias", SEL, sub(
+    _FETCH_OLD,
+    "            fetch_options = self._fetch_clause_options or {}\n"
+    "            fetch_options.update(with_ties=with_ties, percent=percent)\n"
+    "            self._fetch_clause_options = fetch_options\n        return self\n"), "C03-R1")
+R.mutant("fetch-options-item-store-through-alias-chain-and-ternary", SEL, sub(
+    _FETCH_OLD,
+    "            current = self._fetch_clause_options\n"
+    "            merged = current if current is not None else {}\n"
+    "            merged[\"with_ties\"] = with_ties\n"
+    "            merged[\"percent\"] = percent\n"
+    "            self._fetch_clause_options = merged\n        return self\n"), "C03-R1")
+R.mutant("fetch-options-updated-in-a-helper-method", SEL, sub(
+    _FETCH_OLD,
+    "            self._merge_fetch_options(with_ties, percent)\n        return self\n\n"
+    "    def _merge_fetch_options(self, with_ties, percent):\n"
+    "        opts = self._fetch_clause_options or {}\n"
+    "        opts.update(with_ties=with_ties, percent=percent)\n"
+    "        self._fetch_clause_options = opts\n"), "C03-R1")
+R.mutant("benign-fetch-options-copied-then-updated", SEL, sub(
+    _FETCH_OLD,
+    "            fetch_options = dict(self._fetch_clause_options or {})\n"
+    "            fetch_options.update(with_ties=with_ties, percent=percent)\n"
+    "            self._fetch_clause_options = fetch_options\n        return self\n"), None)
+R.mutant("benign-fetch-options-rebound-before-alias-is-taken", SEL, sub(
+    _FETCH_OLD,
+    "            previous = self._fetch_clause_options\n"
+    "            self._fetch_clause_options = dict(previous) if previous else {}\n"
+    "            target = self._fetch_clause_options\n"
+    "            target[\"with_ties\"] = with_ties\n"
+    "            target[\"percent\"] = percent\n        return self\n"), None)
+R.mutant("benign-fetch-options-fresh-dict-on-both-arms", SEL, sub(
+    _FETCH_OLD,
+    "            previous = self._fetch_clause_options\n"
+    "            merged = {**previous} if previous is not None else {}\n"
+    "            merged.update(with_ties=with_ties, percent=percent)\n"
+    "            self._fetch_clause_options = merged\n        return self\n"), None)
+TRV = "sql/traversals.py"
+_ME_OLD = ("    def visit_memoized_select_entities(self, attrname, parent, element, **kw):\n"
+           "        return self.visit_clauseelement_tuple(attrname, parent, element, **kw)\n")
+R.mutant("seed4-memoized-select-entities-copied-as-list", TRV, sub(
+    _ME_OLD,
+    "    def visit_memoized_select_entities(self, attrname, parent, element, **kw):\n"
+    "        return self.visit_clauseelement_list(attrname, parent, element, **kw)\n"), "C03-R1")
+R.mutant("benign-memoized-select-entities-list-visitor-wrapped-in-tuple", TRV, sub(
+    _ME_OLD,
+    "    def visit_memoized_select_entities(self, attrname, parent, element, **kw):\n"
+    "        return tuple(self.visit_clauseelement_list(attrname, parent, element, **kw))\n"), None)
+_GFS_OLD = ("            select_stmt._memoized_select_entities += (self,)\n"
+            "            select_stmt._raw_columns = []\n")
+R.mutant("benign-generate-for-statement-rebinds-with-plus", SEL, sub(
+    _GFS_OLD,
+    "            memoized = select_stmt._memoized_select_entities\n"
+    "            select_stmt._memoized_select_entities = memoized + (self,)\n"
+    "            select_stmt._raw_columns = []\n"), None)
+R.mutant("generate-for-statement-clears-shared-columns-list", SEL, sub(
+    _GFS_OLD,
+    "            select_stmt._memoized_select_entities += (self,)\n"
+    "            select_stmt._raw_columns.clear()\n"), "C03-R1")
+R.mutant("generate-for-statement-as-module-function-appends-to-alias", SEL, chain(
+    sub("        # then memoize the FROMs etc.\n        _MemoizedSelectEntities._generate_for_statement(self)\n",
+        "        # then memoize the FROMs etc.\n        _memoize_select_entities(self)\n"),
+    sub("class _MemoizedSelectEntities(\n",
+        "def _memoize_select_entities(stmt):\n"
+        "    if stmt._setup_joins or stmt._with_options:\n"
+        "        memo = _MemoizedSelectEntities()\n"
+        "        memo._raw_columns = stmt._raw_columns\n"
+        "        memo._setup_joins = stmt._setup_joins\n"
+        "        memo._with_options = stmt._with_options\n"
+        "        stmt._memoized_select_entities += (memo,)\n"
+        "        columns = stmt._raw_columns\n"
+        "        del columns[:]\n"
+        "        stmt._setup_joins = stmt._with_options = ()\n\n\n"
+        "class _MemoizedSelectEntities(\n", count=1)), "C03-R1")
+R.mutant("benign-generate-for-statement-as-module-function", SEL, chain(
+    sub("        # then memoize the FROMs etc.\n        _MemoizedSelectEntities._generate_for_statement(self)\n",
+        "        # then memoize the FROMs etc.\n        _memoize_select_entities(self)\n"),
+    sub("class _MemoizedSelectEntities(\n",
+        "def _memoize_select_entities(stmt):\n"
+        "    if stmt._setup_joins or stmt._with_options:\n"
+        "        memo = _MemoizedSelectEntities()\n"
+        "        memo._raw_columns = stmt._raw_columns\n"
+        "        memo._setup_joins = stmt._setup_joins\n"
+        "        memo._with_options = stmt._with_options\n"
+        "        stmt._memoized_select_entities = stmt._memoized_select_entities + (memo,)\n"
+        "        stmt._raw_columns = []\n"
+        "        stmt._setup_joins = stmt._with_options = ()\n\n\n"
+        "class _MemoizedSelectEntities(\n", count=1)), None)
+# ---- C03-R5 (memoisations that survive the copy)
+DML = "sql/dml.py"
+R.mutant("query-join-keeps-last-joined-entity-memo", Q, sub(
+    "        self.__dict__.pop(\"_last_joined_entity\", None)\n        return self\n", "        return self\n"), "C03-R5")
+R.mutant("filter-by-zero-reads-memo-without-testing-setup-joins", Q, sub(
+    "        if self._setup_joins:\n            _last_joined_entity = self._last_joined_entity\n"
+    "            if _last_joined_entity is not None:\n                return _last_joined_entity\n",
+    "        _last_joined_entity = self._last_joined_entity\n"
+    "        if _last_joined_entity is not None:\n            return _last_joined_entity\n"), "C03-R5")
+R.mutant("benign-r5-query-join-drops-memo-with-del", Q, sub(
+    "        self.__dict__.pop(\"_last_joined_entity\", None)\n        return self\n",
+    "        if \"_last_joined_entity\" in self.__dict__:\n            del self.__dict__[\"_last_joined_entity\"]\n        return self\n"), None)
+R.mutant("benign-r5-filter-by-zero-guard-through-alias-and-early-exit", Q, sub(
+    "        if self._setup_joins:\n            _last_joined_entity = self._last_joined_entity\n"
+    "            if _last_joined_entity is not None:\n                return _last_joined_entity\n",
+    "        query = self\n        joins = query._setup_joins\n"
+    "        last = query._last_joined_entity if joins else None\n"
+    "        if last is not None:\n            return last\n"), None)
+R.mutant("benign-r5-dml-memos-registered-in-memoized-keys", DML, chain(
+    sub("from .. import util\n", "from .. import util\nfrom ..util import HasMemoized_ro_memoized_attribute\n", count=1),
+    sub("    @util.ro_memoized_property\n    def _all_selected_columns(self)", "    @HasMemoized_ro_memoized_attribute\n    def _all_selected_columns(self)"),
+    sub("    @util.ro_memoized_property\n    def exported_columns(\n", "    @HasMemoized_ro_memoized_attribute\n    def exported_columns(\n")), None)
+R.mutant("dml-return-defaults-memo-survives", DML, sub(
+    "    @util.ro_memoized_property\n    def exported_columns(\n",
+    "    @util.memoized_property\n    def _return_defaults_names(self):\n"
+    "        return [c.key for c in self._return_defaults_columns]\n\n"
+    "    @util.ro_memoized_property\n    def exported_columns(\n"), "C03-R5")
